@@ -211,36 +211,42 @@ Definition goal (obs : list (list ocall)) (x : st) : bool :=
   beq_list Nat.eqb (done_count x)
     (map (fun oc => length (filter (fun c : ocall => match c with (_, Some _, _, _) => true | _ => false end) oc)) obs).
 
-Fixpoint dfs (obs : list (list ocall)) (fuel : nat) (x : st) (vis : list (list N)) : bool * list (list N) :=
+(* the search gives up (answer: not admissible) after [budget] distinct model states; on the
+   unchanged code the first descent almost always succeeds (threads are tried in order of the
+   observed return stamps), so the budget only bounds the cost of refuting a bad history *)
+Definition budget : nat := 3 * 2000.
+
+Fixpoint dfs (obs : list (list ocall)) (fuel : nat) (x : st) (n : nat) (vis : list (list N)) : bool * nat * list (list N) :=
   match fuel with
-  | O => (false, vis)
+  | O => (false, n, vis)
   | S f =>
-    if goal obs x then (true, vis) else
-    (fix loop (acts : list actor) (vis : list (list N)) : bool * list (list N) :=
+    if goal obs x then (true, n, vis) else
+    (fix loop (acts : list actor) (n : nat) (vis : list (list N)) : bool * nat * list (list N) :=
        match acts with
-       | [] => (false, vis)
+       | [] => (false, n, vis)
        | a :: r =>
+         if Nat.ltb budget n then (false, n, vis) else
          match vstep obs x a with
-         | None => loop r vis
+         | None => loop r n vis
          | Some x' =>
            let k := key x' in
-           if mem k vis then loop r vis
-           else let '(b, vis') := dfs obs f x' (k :: vis) in
-                if b then (true, vis') else loop r vis'
+           if mem k vis then loop r n vis
+           else let '(b, n', vis') := dfs obs f x' (S n) (k :: vis) in
+                if b then (true, n', vis') else loop r n' vis'
          end
-       end) (order obs x) vis
+       end) (order obs x) n vis
   end.
 
 Definition c17f_case := (N * list (list ocall))%type.
 Definition c17f_ok (c : c17f_case) : bool :=
   let '(cp, obs) := c in
   let x0 := init (N.to_nat cp) (map (map (fun c : ocall => match c with (o, _, _, _) => o end)) obs) in
-  fst (dfs obs (S (measure x0)) x0 []).
+  fst (fst (dfs obs (S (measure x0)) x0 0%nat [])).
 (* the number of model states the search visited (for the evidence / tuning) *)
 Definition c17f_visited (c : c17f_case) : nat :=
   let '(cp, obs) := c in
   let x0 := init (N.to_nat cp) (map (map (fun c : ocall => match c with (o, _, _, _) => o end)) obs) in
-  length (snd (dfs obs (S (measure x0)) x0 [])).
+  snd (fst (dfs obs (S (measure x0)) x0 0%nat [])).
 
 (* ================================================================== transport.Client histories *)
 (* c17l_ok — free runs of a real transport.Client (live or dead peer, with or without handshake
@@ -317,24 +323,25 @@ Definition cgoal (obs : list (list lcall)) (x : cst) : bool :=
   beq_list Nat.eqb (cdone_count x)
     (map (fun oc => length (filter (fun c : lcall => match c with (_, Some _, _, _) => true | _ => false end) oc)) obs).
 
-Fixpoint cdfs (obs : list (list lcall)) (fuel : nat) (x : cst) (vis : list (list N)) : bool * list (list N) :=
+Fixpoint cdfs (obs : list (list lcall)) (fuel : nat) (x : cst) (n : nat) (vis : list (list N)) : bool * nat * list (list N) :=
   match fuel with
-  | O => (false, vis)
+  | O => (false, n, vis)
   | S f =>
-    if cgoal obs x then (true, vis) else
-    (fix loop (acts : list cactor) (vis : list (list N)) : bool * list (list N) :=
+    if cgoal obs x then (true, n, vis) else
+    (fix loop (acts : list cactor) (n : nat) (vis : list (list N)) : bool * nat * list (list N) :=
        match acts with
-       | [] => (false, vis)
+       | [] => (false, n, vis)
        | a :: r =>
+         if Nat.ltb budget n then (false, n, vis) else
          match cvstep obs x a with
-         | None => loop r vis
+         | None => loop r n vis
          | Some x' =>
            let k := ckey x' in
-           if mem k vis then loop r vis
-           else let '(b, vis') := cdfs obs f x' (k :: vis) in
-                if b then (true, vis') else loop r vis'
+           if mem k vis then loop r n vis
+           else let '(b, n', vis') := cdfs obs f x' (S n) (k :: vis) in
+                if b then (true, n', vis') else loop r n' vis'
          end
-       end) (corder obs x) vis
+       end) (corder obs x) n vis
   end.
 
 (* every thread step strictly advances a pc or consumes an op; loops (CAS retry, handshake wait)
@@ -343,4 +350,8 @@ Definition c17l_case := (bool * bool * N * list (list lcall))%type.   (* peer al
 Definition c17l_ok (c : c17l_case) : bool :=
   let '(pe, tm, cr, obs) := c in
   let x0 := cinit pe tm cr (map (map (fun c : lcall => match c with (o, _, _, _) => o end)) obs) in
-  fst (cdfs obs (40 * S (length (List.concat obs)) + 40) x0 []).
+  fst (fst (cdfs obs (40 * S (length (List.concat obs)) + 40) x0 0%nat [])).
+Definition c17l_visited (c : c17l_case) : nat :=
+  let '(pe, tm, cr, obs) := c in
+  let x0 := cinit pe tm cr (map (map (fun c : lcall => match c with (o, _, _, _) => o end)) obs) in
+  snd (fst (cdfs obs (40 * S (length (List.concat obs)) + 40) x0 0%nat [])).
